@@ -54,16 +54,16 @@ def check(ctx: Ctx) -> list[RuleResult]:
     for f in out_scope:
         r1.notes.append(f"{f.short}: sets the future but is only reachable synchronously from the binding coroutine's own sends (not from a timer/message callback): not decided")
     waits = unshielded_waits(ctx, funcs)
-    waiters = [f for f in funcs if any(isinstance(n, ast.Call) and norm(n.func).endswith("wait_for") for n in own_nodes(f.node))]
+    waiters = [f for f in funcs if any((isinstance(n, ast.Call) and norm(n.func).endswith("wait_for")) or (isinstance(n, ast.Await) and "_fut" in norm(n.value)) for n in own_nodes(f.node))]
     if not waiters:
-        raise AnalysisError("no wait_for() in binding_fsm: the waiting anchor moved")
+        raise AnalysisError("no wait on the state future in binding_fsm: the waiting anchor moved")
     for f in waiters:
         r1.instances += 1
         r1.nontrivial += 1
         mine = [(g, n, a) for g, n, a in waits if g is f]
         if mine:
             for g, n, a in mine:
-                r1.fail(f"{f.short}:wait_for({a})", f.loc(n), f"`{norm(n)[:70]}` waits on the bare future {a}: on timeout asyncio cancels it, and every later set_result/set_exception/result() on it raises")
+                r1.fail(f"{f.short}:bare-wait({a})", f.loc(n), f"`{norm(n)[:70]}` waits on the bare future {a} (not shielded): when the wait is cut short (timeout / cancellation) asyncio cancels the future itself, and every later set_result/set_exception/result() on it raises")
         else:
             r1.ok({"waiter": f.short, "unshielded_future_waits": 0})
     out.append(r1)
